@@ -307,6 +307,11 @@ def main(quick=False):
     for j in (0, -1):
         for vec in (False, True):
             audit(f"SpecRagged x[..., {j}] = {'vector' if vec else 'scalar'}", *both(_assign(j, vec)), [(r,) for r in ROWS], max_index=8)
+    audit("SpecRagged ones_like(bool); m[..., 1:] = ragged mask; m.sum(axis=-1)",
+          *both(lambda x: (lambda m: (m.__setitem__((Ellipsis, slice(1, None)), x[:, :-1] != x[:, 1:]), m)[1])(np.ones_like(x, dtype=bool))),
+          [(r,) for r in ROWS], max_index=8)
+    audit("SpecRagged row counts of a boolean ragged array", *both(lambda x: (x[:, :-1] != x[:, 1:]).sum(axis=-1)), [(r,) for r in ROWS], max_index=8)
+    audit("SpecRagged x[ragged mask]", *both(lambda x: x[:, 1:][x[:, :-1] != x[:, 1:]]), [(r,) for r in ROWS + [Rows([[1, 1, 2], [3, 3]]), Rows([[4, 5, 5, 6]])]], max_index=8)
     audit("uint64 shifts (shift >= 64 gives 0)", lambda m, x, s: (x << s, x >> s), lambda m, x, s: (x << s, x >> s),
           [(np.array([1, 2 ** 63, 2 ** 64 - 1, 5], dtype=np.uint64), np.uint64(s)) for s in (0, 1, 8, 63, 64)])
     dt = time.time() - t0
